@@ -87,7 +87,7 @@ def q_grammar(side: str) -> Grammar:
         A("group_text", 1, "SELECT s AS c1, {agg} AS c2 FROM t GROUP BY s{order}"),
         A("agg_all", 1, "SELECT {agg} AS c1, COUNT(*) AS c2 FROM t"),
         A("having", 1, "SELECT a AS c1, COUNT(*) AS c2 FROM t GROUP BY a HAVING {agg} > 1{order}"),
-        A("join", 1, "SELECT t.a AS c1, u.c AS c2 FROM t {jk} u ON t.b = u.b{order}"),
+        A("join", 1, "SELECT t.a AS c1, u.c AS c2 FROM t {jk} u ON {on}{order}"),
         A("join_cross", 1, "SELECT t.a AS c1, u.c AS c2 FROM t CROSS JOIN u{order}"),
         A("join_comma", 1, "SELECT t.a AS c1, u.c AS c2 FROM t, u WHERE t.b = u.b{order}"),
         A("union", 1, "SELECT a AS c1, b AS c2 FROM t UNION SELECT b, c FROM u{order}"),
@@ -107,21 +107,26 @@ def q_grammar(side: str) -> Grammar:
         q += [
             A("qualify", 1, "SELECT a AS c1, b AS c2 FROM t QUALIFY ROW_NUMBER() OVER (PARTITION BY a ORDER BY b, s, ts) = 1{order}"),
             A("distinct_on", 1, "SELECT DISTINCT ON (a) a AS c1, b AS c2 FROM t ORDER BY a, b, s, ts"),
-            A("semi", 1, "SELECT t.a AS c1, t.b AS c2 FROM t SEMI JOIN u ON t.b = u.b{order}"),
-            A("anti", 1, "SELECT t.a AS c1, t.b AS c2 FROM t ANTI JOIN u ON t.b = u.b{order}"),
+            A("semi", 1, "SELECT t.a AS c1, t.b AS c2 FROM t SEMI JOIN u ON {on}{order}"),
+            A("anti", 1, "SELECT t.a AS c1, t.b AS c2 FROM t ANTI JOIN u ON {on}{order}"),
             A("offset_only", 1, "SELECT a AS c1, b AS c2 FROM t ORDER BY 1, 2 OFFSET 1"),
         ]
     agg = [A("count", 0, "COUNT(b)"), A("sum", 1, "SUM(b)"), A("min", 1, "MIN(b)"), A("max", 1, "MAX(b)"), A("avg", 1, "AVG(b)"),
            A("count_distinct", 1, "COUNT(DISTINCT b)"), A("sum_expr", 1, "SUM({i})"), A("total", 1, "COUNT(*)"),
            A("group_concat", 1, "COUNT(s)")]
     jk = [A("inner", 0, "JOIN"), A("left", 1, "LEFT JOIN"), A("right", 1, "RIGHT JOIN"), A("full", 1, "FULL JOIN")]
+    # join conditions: the plain equi-join, plus conjuncts over one side only (NULL-sensitive when a rewrite moves them),
+    # a residual inequality, a disjunction and a pure inequality
+    on = [A("on.eq", 0, "t.b = u.b"), A("on.left_conj", 1, "t.b = u.b AND t.a > 0"), A("on.right_conj", 1, "t.b = u.b AND u.c > 0"),
+          A("on.residual", 1, "t.b = u.b AND t.a < u.c"), A("on.or", 1, "t.b = u.b OR t.a = u.c"), A("on.lt", 1, "t.b < u.b"),
+          A("on.left_only", 1, "t.a > 0"), A("on.not_left", 1, "t.b = u.b AND NOT t.a > 0")]
     fmt = [A(f"fmt.{i}", 0, "'%s'" % f) for i, f in enumerate(FMTS)]
     rules = {
         "i": ileaf + arith + ifun, "io": ileaf + ifun + [A("wrap", 0, "({ia})")], "ia": arith, "io2": [A("two", 0, "2"), A("three", 0, "3"), A("negtwo", 1, "-2")],
         "x": xleaf + xfun, "xo": xleaf + [f for f in xfun if f.tag not in ("dpipe", "dpipe3", "dpipe_int")] + [A("xwrap", 0, "({xa})")],
         "xa": [f for f in xfun if f.tag in ("dpipe", "dpipe_int")],
         "c": cond, "co": [c for c in cond if c.tag not in ("and", "or", "not", "and_or", "or_and", "not_and")] + [A("cwrap", 0, "({cc})")], "cc": conn,
-        "q": q, "agg": agg, "jk": jk, "order": order, "order_s": order_s, "fmt": fmt,
+        "q": q, "agg": agg, "jk": jk, "on": on, "order": order, "order_s": order_s, "fmt": fmt,
         "ki": [A("k.a", 0, "a"), A("k.b", 1, "b")] + arith + ifun, "kx": [A("k.s", 0, "s")] + xfun,
     }
     return Grammar(rules, depth_nts=("i", "io", "ia", "x", "xo", "xa", "c", "co", "cc"))
